@@ -239,9 +239,28 @@ def gen(rng, shard, nshards, n_ed, n_p256, table, rms):
             lines.append("s p256 vtrunc %s %s %d %s" % (pk.hex(), inp.hex(), rm, hv.hex()))
             exp.append(expect_p256(Q, inp, rm, hv, standard))
         else:
-            m = rng.randrange(6)
+            m = rng.randrange(8)
             b = bytearray(prepared)
             hv2 = hv
+            if m >= 6:
+                # "negated low part": a valid signature (r, s) built with the forged-hash construction with a small s, presented
+                # as s0 = j*2^(256-rm) - s: the search meets it as -U_0 = V_j (i = 0, j != 0), which must be rejected -- and the
+                # scan must then continue without running off the table (small rm: few table entries, U_0 is often the first)
+                rm = rng.choice([8, 8, 9, 9, 10, 11, 12, 13, 16])
+                nb = 256 - rm
+                kk = (rm - 1 + 1) >> 1
+                s_true = rng.randrange(1, 1 << (nb + kk))
+                while True:
+                    kq = rng.randrange(1, N)
+                    r2 = Cw.mulgen(kq)[0] % N
+                    if r2 >= Cw.p - N:
+                        break
+                hv2 = ((s_true * kq - r2 * d) % N).to_bytes(32, "big")
+                jj = (s_true + (1 << nb) - 1) >> nb
+                s0 = (jj << nb) - s_true
+                b = bytearray(r2.to_bytes(32, "big") + (s0 % (1 << nb)).to_bytes(32, "little"))
+                cl.add("negated-low-part")
+                cl.add("rm-small" if rm <= 10 else "rm-mid")
             if m == 0:
                 b[rng.randrange(32)] ^= 1 << rng.randrange(8); cl.add("corrupt-r")
             elif m == 1:
@@ -271,7 +290,7 @@ def gen(rng, shard, nshards, n_ed, n_p256, table, rms):
                 if 0 <= s0 < (1 << nb):
                     b = bytearray(r2.to_bytes(32, "big") + s0.to_bytes(32, "little"))
                     cl.add("true-s-just-below-n")
-            else:
+            elif m == 5:
                 b = bytearray(rb(rng, 64)); cl.add("random-input")
             inp = overwrite_last_bits(bytes(b), rm, "random", rng)
             must = None
@@ -326,7 +345,7 @@ def main(argv):
     try:
         if a.tier == "quick":
             cfgs = (a.configs.split(",") if a.configs else ["default", "w32"])
-            n1, n2 = int(1600 * a.scale), int(320 * a.scale)
+            n1, n2 = int(1600 * a.scale), int(1200 * a.scale)
             rms = list(range(8, 33))
         else:
             cfgs = (a.configs.split(",") if a.configs else ["default", "m51", "w32", "zz32", "avx2"])
@@ -338,7 +357,7 @@ def main(argv):
         rep.extra["ux_table_indices_swept_at_rm19"] = rep.classes.get("ux-index-sweep", 0)
         rep.extra["ux_comp_entries_checked"] = 16385 if rep.classes.get("ux_comp-slice", 0) >= 17 else 0
         rep.require("ux_comp-slice", "ux-index-sweep", "ux-index-sweep:j=0", "ed25519", "p256", "complete", "corrupt", "rm=8", "rm=32", "rm=16", "fill=ones", "fill=zero", "hidden-min", "hidden-max",
-                    "corrupt-R", "kept-bits-off-by-one", "other-root", "s-negated-by-preparation", "p256-prepare:some", "p256-prepare:none", "p256-prepare:len=other")
+                    "corrupt-R", "kept-bits-off-by-one", "other-root", "negated-low-part", "s-negated-by-preparation", "p256-prepare:some", "p256-prepare:none", "p256-prepare:len=other")
     except Inconclusive as e:
         rep.incon.append(str(e))
     return rep.finish()
